@@ -1,5 +1,6 @@
 import Pyrtma.Proofs.ValidatorsCanon
 import Pyrtma.Proofs.ValidatorsProg
+import Pyrtma.Proofs.ValidatorsFloat
 /-!
 # C09 — field validation is sound, complete and atomic
 
@@ -963,6 +964,135 @@ def demoRun : PState × Bool :=
 example : demoRun.1.msg = [44, 0, 0] ∧ demoRun.1.flag = true ∧ demoRun.2 = true ∧
     (demoRun.1.log.reverse.map fun x => (x.depth, x.flag, x.err)) =
       [(1, false, none), (0, true, some .valueError)] := by decide
+
+/-! ## floats
+
+`roundMag` stays `opaque`.  Proved here **without** any assumption about it: ±inf refused, NaN accepted and stored as NaN,
+a double field holds every finite double bit for bit, wrong types refused, bools accepted.  Proved from **named
+hypotheses** (`RoundHyp`, Proofs/ValidatorsFloat.lean - each a property of IEEE round-to-nearest, listed in the trusted
+base, and evaluated by the driver at the operands of every generated float case): float32 overflow refused at any position,
+ints too large for a double refused, and the three facts `FloatOK` that `accepted_sound` needs - so that accepted ⇒ the value
+is in the float domain and the stored pattern is a *nearest* representable finite value (ties to even), for floats, ints,
+bools, for scalar fields, elements, slices and copied arrays. -/
+
+open Pyrtma.Validators
+
+/-- **Soundness for every field descriptor under the named rounding hypotheses** (`RoundHyp`: a finite result is a
+nearest pattern; a value at or beyond the overflow threshold is not rounded to a finite pattern; float32 values and
+integers up to 2^53 are fixed by rounding to double; the big-integer monotonicity clause). -/
+theorem accepted_sound_under_rounding_hypotheses (R : RoundHyp) (ty : FTy) (old : Bytes) (key : Key) (v : PyVal)
+    (post : Bytes) (hty : tyWF ty = true) (hold : old.length = ty.size) (hw : valWF ty.vk v = true)
+    (h : setField true ty old key v = (post, none)) : SoundAt ty key v post :=
+  accepted_sound ty (floatOK_of R ty.vk) old key v post hty hold hw h
+
+/-! ### independent of the rounding function -/
+
+theorem flt_scalar_refused (k : FK) (old : Bytes) (s : Scalar) (e : PyErr) (h : validateOne (.flt k) s = .error e) :
+    setField true (.flt k) old .whole (.sc s) = (old, some e) := by
+  simp [setField, setScalar, h, lift]
+
+/-- **±infinity is refused** by float and double fields alike -/
+theorem float_inf_refused (k : FK) (old : Bytes) (b : Nat) (h : isInf64 b = true) :
+    setField true (.flt k) old .whole (.sc (.flt b)) = (old, some .valueError) := by
+  apply flt_scalar_refused
+  simp [validateOne, toDouble, inf_infAfter k b h]
+
+/-- **NaN is accepted** by both kinds and stored as a NaN (the field's magnitude bits are above the infinity pattern) -/
+theorem float_nan_accepted (k : FK) (old : Bytes) (b : Nat) (hb : b < 2 ^ 64) (h : isNaN64 b = true) :
+    ∃ post, setField true (.flt k) old .whole (.sc (.flt b)) = (post, none) ∧
+      fromLE post % (fmtOf k).sign > (fmtOf k).infPat := by
+  have hni := nan_not_infAfter k b h
+  refine ⟨encFlt k b, by simp [setField, setScalar, validateOne, toDouble, hni, elemStore, lift], ?_⟩
+  simp only [isNaN64, decide_eq_true_eq] at h
+  cases k with
+  | f64 =>
+    simp only [encFlt, fromLE_toLE8 b hb, fmtOf64, fmt64_sign]
+    rw [fmt64_inf] at h ⊢; omega
+  | f32 =>
+    have hm : b % 2 ^ 63 < 2 ^ 63 := Nat.mod_lt _ (by decide)
+    rcases decodeMag64_cases (b % 2 ^ 63) hm with ⟨hlt, _⟩ | ⟨heq, _⟩ | ⟨_, hd⟩
+    · omega
+    · omega
+    · have hn := narrow_nan b hd
+      have hs : b / 2 ^ 63 % 2 < 2 := Nat.mod_lt _ (by decide)
+      have hlt : narrow b < 2 ^ 32 := by rw [hn]; omega
+      simp only [encFlt, fromLE_toLE4 _ hlt, fmtOf32, fmt32_sign, fmt32_inf]
+      rw [hn]; omega
+
+/-- **a double field holds every finite double bit for bit** and reads it back unchanged: no rounding is involved -/
+theorem double_field_exact (old : Bytes) (b : Nat) (hb : b < 2 ^ 64) (hfin : isInf64 b = false) :
+    setField true (.flt .f64) old .whole (.sc (.flt b)) = (toLE 8 b, none) ∧
+    readField (.flt .f64) .whole (toLE 8 b) = [.flt b] := by
+  refine ⟨by simp [setField, setScalar, validateOne, toDouble, infAfter, hfin, elemStore, encFlt, lift], ?_⟩
+  simp [readField, fromLE_toLE8 b hb]
+
+/-- **wrong types are refused**: a `str`, a `bytes`, `None` / any other object, a struct instance (and a ctypes
+instance of another class) are no numbers -/
+theorem float_wrong_type_refused (k : FK) (old : Bytes) (s : Scalar)
+    (hs : (∃ cs, s = .str cs) ∨ (∃ bs, s = .bytes bs) ∨ s = .other ∨ (∃ t r, s = .strct t r) ∨
+          (∃ t r, s = .cdata t r ∧ t ≠ .flt k)) :
+    setField true (.flt k) old .whole (.sc s) = (old, some .typeError) := by
+  apply flt_scalar_refused
+  rcases hs with ⟨cs, rfl⟩ | ⟨bs, rfl⟩ | rfl | ⟨t, r, rfl⟩ | ⟨t, r, rfl, hne⟩ <;> try rfl
+  cases t with
+  | flt k' =>
+    have : k' ≠ k := fun h => hne (by rw [h])
+    simp [validateOne, this]
+  | int k' => rfl
+  | char => rfl
+
+/-- **bools are accepted** (`isinstance(True, int)`): a double field holds exactly 1.0 / 0.0 afterwards -/
+theorem double_accepts_bool (old : Bytes) (t : Bool) :
+    setField true (.flt .f64) old .whole (.sc (.bool t)) =
+      (toLE 8 (if t then 0x3ff0000000000000 else 0), none) := by
+  cases t <;> simp [setField, setScalar, validateOne, toDouble, infAfter, isInf64, fmt64_inf, elemStore, encFlt, lift]
+
+/-! ### needing one named hypothesis each -/
+
+/-- **float32 overflow is refused** (hypothesis: a value at or beyond the float32 overflow threshold is not rounded to a
+finite pattern): a finite double whose value overflows float32 raises `ValueError`, nothing stored -/
+theorem float32_overflow_refused
+    (ho : ∀ m e, overflowsMag fmt32 (scaled m e) = true → fmt32.infPat ≤ roundMag fmt32 m e)
+    (old : Bytes) (b m : Nat) (e : Int) (hd : decodeMag fmt64 (b % 2 ^ 63) = .fin m e)
+    (hov : overflowsMag fmt32 (scaled m e) = true) :
+    setField true (.flt .f32) old .whole (.sc (.flt b)) = (old, some .valueError) := by
+  apply flt_scalar_refused
+  simp [validateOne, toDouble, overflow32_infAfter ho b m e hd hov]
+
+/-- … at **any position of a sequence** assigned to a float32 array, whatever surrounds it (NaN neighbours included),
+for any slice shape, leaving every byte of the message unchanged -/
+theorem float32_overflow_refused_anywhere
+    (ho : ∀ m e, overflowsMag fmt32 (scaled m e) = true → fmt32.infPat ≤ roundMag fmt32 m e)
+    (msg : Bytes) (off n : Nat) (a b' c : Option Int) (kind : SeqK) (pre post : List Scalar) (b m : Nat) (e : Int)
+    (hd : decodeMag fmt64 (b % 2 ^ 63) = .fin m e) (hov : overflowsMag fmt32 (scaled m e) = true) (whole : Bool) :
+    ∃ err, setAt true msg off (.arr .floatArray (.flt .f32) n) (if whole then .whole else .slice a b' c)
+      (.seq kind (pre ++ .flt b :: post)) = (msg, some err) :=
+  float_array_kth_bad_all_or_nothing msg off .f32 n a b' c kind pre post (.flt b)
+    (fun d hd' => by
+      simp only [toDouble, Except.ok.injEq] at hd'; subst hd'
+      exact overflow32_infAfter ho b m e hd hov) whole
+
+/-- **an int too large for a double is refused** with `OverflowError` by float and double fields (hypothesis: a value at
+or beyond the double overflow threshold is not rounded to a finite pattern) -/
+theorem float_huge_int_refused
+    (ho : ∀ m e, overflowsMag fmt64 (scaled m e) = true → fmt64.infPat ≤ roundMag fmt64 m e)
+    (k : FK) (old : Bytes) (n : Int) (hov : overflowsMag fmt64 (scaled n.natAbs 0) = true) :
+    setField true (.flt k) old .whole (.sc (.int n)) = (old, some .overflowError) := by
+  apply flt_scalar_refused
+  have : ofInt n = none := by
+    unfold ofInt
+    have := ho _ _ hov
+    simp only
+    split
+    · rfl
+    · omega
+  simp [validateOne, toDouble, this]
+
+
+example : setField true (.flt .f64) [0, 0, 0, 0, 0, 0, 0, 0] .whole (.sc (.flt 0x7ff0000000000000))
+    = ([0, 0, 0, 0, 0, 0, 0, 0], some .valueError) := float_inf_refused .f64 _ _ (by decide)
+example : (setField true (.flt .f64) [0, 0, 0, 0, 0, 0, 0, 0] .whole (.sc (.flt 0x3ff8000000000000))).1
+    = [0, 0, 0, 0, 0, 0, 0xf8, 0x3f] := by rw [(double_field_exact _ _ (by decide) (by decide)).1]; decide
 
 /-! ### non-vacuity of the soundness theorems -/
 
